@@ -4,7 +4,6 @@ import (
 	"context"
 	"time"
 
-	"reservoir/config"
 	"reservoir/utils/duration"
 )
 
@@ -148,12 +147,7 @@ func lockLeakInterleaved(mem *MemoryCache[vmeta], file *FileCache[vmeta]) {
 	}
 	k2 := vKeys[symChoice(nk)]
 	kind := symChoice(5)
-	var cfg *config.Config
-	if mem != nil {
-		cfg = mem.janitor.cfg
-	} else {
-		cfg = file.janitor.cfg
-	}
+	cfg := kitCfg
 	vSecond(func() {
 		switch kind {
 		case 0:
